@@ -28,9 +28,9 @@ Qed.
 (* not forced, entry exposed before and now with the same value: the cookie is left exactly as it is *)
 Lemma update_exposed_keeps : forall now age s x k v c,
   ssorted (s_data s) -> dfind k (s_data s) = Some (v, true) -> entry_changed (s_copy s) k v = false ->
-  In (k, c) x -> In (k, c) (update_exposed now age false s x).
+  In (k, c) x -> In (k, c) (update_exposed now age false false s x).
 Proof.
-  intros now age s x k v c Hs Hf Hc Hin. unfold update_exposed. apply filter_In. split.
+  intros now age s x k v c Hs Hf Hc Hin. unfold update_exposed. cbn [orb]. apply filter_In. split.
   2:{ cbn [fst]. unfold is_exposed. rewrite Hf. reflexivity. }
   destruct (dfind_split_sorted k (v, true) (s_data s) Hs Hf) as (d1 & d2 & -> & H1 & H2).
   rewrite exposed_sets_app. cbn [exposed_sets].
@@ -101,10 +101,10 @@ Proof.
   - exists ck. unfold get_jar at 1. cbn [w_jars]. rewrite nth_set_nth_same. cbn [j_sess].
     unfold jar_set_sess. rewrite Hex. reflexivity.
   - unfold get_jar at 1. cbn [w_jars]. rewrite nth_set_nth_same. cbn [j_exp].
-    assert ((dmap_eqb (s_data s) (s_copy s) && true || (s_how s =? 1)%Z) = false) as ->.
-    { rewrite Hh. cbn [Z.eqb]. rewrite orb_false_r.
-      unfold skipped in Hk. cbv zeta in Hk. rewrite Hn, Hh in Hk. cbn [negb Z.eqb] in Hk.
-      apply orb_false_iff in Hk. destruct Hk as [K _]. rewrite andb_true_r in K. exact K. }
+    assert (dmap_eqb (s_data s) (s_copy s) = false) as K.
+    { unfold skipped in Hk. cbv zeta in Hk. rewrite Hn, Hh in Hk. cbn [negb Z.eqb] in Hk.
+      apply orb_false_iff in Hk. destruct Hk as [K _]. rewrite !andb_true_r in K. exact K. }
+    rewrite K, Hh. cbn [Z.eqb negb andb orb].
     apply update_exposed_keeps with (v := v); try assumption.
     unfold jar_set_sess. rewrite Hex. cbn [j_exp]. exact Hin.
 Qed.
